@@ -118,16 +118,26 @@ def chk_nested(case, acc, seed):
 def chk_norm(case, acc, seed):
     import lentil
     shape, p = tuple(case['shape']), case['power']
-    for kind in ('real', 'complex', 'int'):
-        a = rm.generic_real(shape, seed, tag=3) if kind == 'real' else (
-            rm.generic_complex(shape, seed, tag=4) if kind == 'complex' else (np.arange(np.prod(shape)).reshape(shape) + 1))
+    big = (20, 20)       # more than 255 lit pixels: narrow integer accumulators wrap
+    for kind in ('real', 'complex', 'int', 'bool-mask', 'uint8-mask', 'int16-mask', 'float32'):
+        if kind == 'real':
+            a = rm.generic_real(shape, seed, tag=3)
+        elif kind == 'complex':
+            a = rm.generic_complex(shape, seed, tag=4)
+        elif kind == 'int':
+            a = np.arange(np.prod(shape)).reshape(shape) + 1
+        elif kind == 'float32':
+            a = rm.generic_real(big, seed, tag=5).astype(np.float32)
+        else:
+            m = np.ones(big); m[0, :3] = 0; m[7, 7] = 0
+            a = m.astype({'bool-mask': bool, 'uint8-mask': np.uint8, 'int16-mask': np.int16}[kind])
         a0 = np.array(a, copy=True)
         r = lentil.normalize_power(a, p)
         got = float(np.sum(np.abs(r) ** 2))
-        if abs(got - p) > 1e-12 * p:
-            acc.violation('normalize_power:value', dict(case, payload=kind), f'power {got!r} != {p}')
+        if abs(got - p) > (1e-6 if kind == 'float32' else 1e-12) * p:
+            acc.violation(f'normalize_power:value:{kind}', dict(case, payload=kind), f'power {got!r} != {p}')
         # direction preserved
-        if np.abs(np.vdot(r.ravel(), a0.ravel())) < (1 - 1e-12) * np.linalg.norm(r) * np.linalg.norm(a0):
+        if np.abs(np.vdot(np.asarray(r, dtype=complex).ravel(), np.asarray(a0, dtype=complex).ravel())) < (1 - 1e-6) * np.linalg.norm(np.asarray(r, dtype=complex)) * np.linalg.norm(np.asarray(a0, dtype=complex)):
             acc.violation('normalize_power:shape', dict(case, payload=kind), 'result is not a positive multiple of the input')
         if not np.array_equal(a, a0):
             acc.violation('normalize_power:mutates', dict(case, payload=kind), 'input modified')
